@@ -163,6 +163,7 @@ def run_obligation(o: Obligation, seed=0):
     ex = explore.Explorer(max_paths=o.max_paths, rlimit=o.rlimit, generic=o.generic, seed=seed, wall_s=o.wall_s)
     budget = None
     sys.setrecursionlimit(20000)
+    sys.set_int_max_str_digits(0)
     with npenv.patched():
         try:
             ex.run(path_fn)
